@@ -42,17 +42,29 @@ fn str_dispatch() {
     dispatch(kani::any());
 }
 
-/// The one-character strings alone (cheap; every control character is in here).
+/// The one-character strings alone.
 #[kani::proof]
 #[kani::unwind(10)]
 #[kani::stub(DataMatrixBuilder::encode_eci, stub_encode_eci)]
 fn str_dispatch_1() {
-    dispatch(false);
+    dispatch_c(false, kani::any(), 'a');
+}
+
+/// One character from U+0000..=U+00FF (every control character and the whole
+/// Latin-1 range are in here): the cheap version for the quick tier.
+#[kani::proof]
+#[kani::unwind(10)]
+#[kani::stub(DataMatrixBuilder::encode_eci, stub_encode_eci)]
+fn str_dispatch_lo() {
+    let b: u8 = kani::any();
+    dispatch_c(false, b as char, 'a');
 }
 
 fn dispatch(two: bool) {
-    let c1: char = kani::any();
-    let c2: char = kani::any();
+    dispatch_c(two, kani::any(), kani::any());
+}
+
+fn dispatch_c(two: bool, c1: char, c2: char) {
     let mut buf = [0u8; 8];
     let n1 = c1.encode_utf8(&mut buf[..4]).len();
     let n2 = if two { c2.encode_utf8(&mut buf[n1..]).len() } else { 0 };
@@ -82,13 +94,13 @@ fn dispatch(two: bool) {
             assert!(REC_LEN == if two { 2 } else { 1 });
             assert!(REC_DATA[0] as u32 == c1 as u32);
             assert!(!two || REC_DATA[1] as u32 == c2 as u32);
-            kani::cover!(two && c1 as u32 >= 0xA0);
+            kani::cover!(c1 as u32 >= 0xA0);
         } else {
             assert!(REC_ECI == Some(26));
             assert!(REC_LEN == n1 + n2);
             assert!(REC_DATA[0] == buf[0] && REC_DATA[1] == buf[1] && REC_DATA[2] == buf[2] && REC_DATA[3] == buf[3]);
             assert!(REC_DATA[4] == buf[4] && REC_DATA[5] == buf[5] && REC_DATA[6] == buf[6] && REC_DATA[7] == buf[7]);
-            kani::cover!(two && (c1 as u32) < 0x20 && (c2 as u32) < 0x80);
+            kani::cover!((c1 as u32) < 0x20);
         }
     }
 }
